@@ -19,7 +19,7 @@ def Ty.toLat : Ty → Option Pcore.Lat.Ty
     | "Any" => some .any | "Unit" => some .unit | "Undef" => some .undef | "Default" => some .dflt | "Scalar" => some .scalar
     | "ScalarData" => some .scalarData | "Numeric" => some .numeric | "Data" => some .data | "RichData" => some .richData
     | "Binary" => some .bin | "Float" => some Pcore.Lat.floatAll | "String" => some .str
-    | "Timespan" => some (.tspan Pcore.Lat.Rng.all) | "Struct" => some (.struct []) | "Object" => some (.object none)
+    | "Timespan" => some (.tspan Pcore.Lat.Rng.all) | "Object" => some (.object none)
     | _ => none
   | .int lo hi => some (.int ⟨lo, hi⟩)
   | .strSz lo hi => some (.strSz ⟨lo, hi⟩)
@@ -42,9 +42,13 @@ def Ty.toLat : Ty → Option Pcore.Lat.Ty
   | .hash k v lo hi => (Ty.toLat k).bind fun a => (Ty.toLat v).map fun b => .hash a b ⟨lo, hi⟩
   | .collection lo hi => some (.coll ⟨lo, hi⟩)
   | .tuple ts sz => (Ty.toLatList ts).map fun us => .tuple us (sz.map fun p => ⟨p.1, p.2⟩)
+  | .struct ms => (Ty.toLatMembers ms).map .struct
 def Ty.toLatList : List Ty → Option (List Pcore.Lat.Ty)
   | [] => some []
   | t :: ts => (Ty.toLat t).bind fun u => (Ty.toLatList ts).map fun us => u :: us
+def Ty.toLatMembers : List (Str × Bool × Ty) → Option (List (String × Bool × Pcore.Lat.Ty))
+  | [] => some []
+  | (n, o, t) :: ms => (Ty.toLat t).bind fun u => (Ty.toLatMembers ms).map fun us => (strOfL n, o, u) :: us
 end
 
 end Pcore.Syntax
